@@ -25,7 +25,7 @@ type Block struct {
 
 // Env returns the GORACE setting that makes the detector log to prefix and keep running.
 func Env(prefix string) string {
-	return "GORACE=halt_on_error=0 log_path=" + prefix + " history_size=3"
+	return "GORACE=halt_on_error=0 exitcode=0 log_path=" + prefix
 }
 
 // Read parses every log file <prefix>.* .
